@@ -12,10 +12,11 @@ import copy
 
 from dst.core import prng, shrink, stepbudget
 from dst.checks import c16
-from dst.world import fragment, hdlc_gen, p1_gen, reader_rig
+from dst.world import fragment, hdlc_gen, hdlc_wires, p1_gen, reader_rig
 
 PROP = "C14"
 LEVEL = "exploration"
+TERMINATION_IS_PROPERTY = True  # a wall-clock hang found by the watchdog is a violation here, not only a harness error
 TECHNIQUE = "deterministic simulation: seeded line-noise injection through a fragmenting transport into the real readers and asyncio protocol objects; oracle = no escaping exception from read()/accessors/data_received within a deterministic step budget, then the C16 resynchronisation oracle on a clean suffix"
 DESIGN_REF = "DESIGN.md section 4.8"
 LEVEL_TEXT = (
@@ -38,7 +39,7 @@ ASSUMPTIONS = [
     "step budget 200000 + 400 interpreter events per input octet per run (readers use ~10 per octet): exceeding it is reported as non-termination",
     "the clean suffix is judged by the C16 oracle on a fresh reader fed the identical stream (readers are deterministic)",
 ]
-MUST_FIRE = {"quick": ["noise_nonascii_ident", "noise_bad_end_line", "noise_bang_in_ident", "target_proto_payload", "target_proto_message", "messages_with_accessors_checked"], "thorough": ["noise_nonascii_ident", "noise_bad_end_line", "noise_bang_in_ident", "target_proto_payload", "target_proto_message", "messages_with_accessors_checked"]}
+MUST_FIRE = {"quick": ["noise_nonascii_ident", "noise_bad_end_line", "noise_bang_in_ident", "noise_faulty_frames", "target_proto_payload", "target_proto_message", "messages_with_accessors_checked"], "thorough": ["noise_nonascii_ident", "noise_bad_end_line", "noise_bang_in_ident", "noise_faulty_frames", "target_proto_payload", "target_proto_message", "messages_with_accessors_checked"]}
 
 TARGETS = ["hdlc", "hdlc", "p1", "p1", "p1", "proto_payload", "proto_message"]
 
@@ -54,6 +55,11 @@ def gen(rng, tier, index):
             data, kind = p1_gen.noise(rng, 120)
             if kind == "long" and rng.random() < 0.7:
                 data, kind = p1_gen.noise(rng, 120)
+        elif rng.random() < 0.35:
+            # damaged but frame-shaped traffic (header-only, wrong length, bad FCS, junk appended ...)
+            w = hdlc_wires.draw(rng, tuple(cfg))
+            data, _ = hdlc_wires.wire_of(w, cfg[0])
+            data, kind = data[:600], "faulty_frames"
         else:
             data, kind = hdlc_gen.noise(rng, cfg[0], 120)
         pieces.append(data.hex())
